@@ -43,9 +43,12 @@ fn case_json(c: &Case) -> Value {
 }
 
 fn check(c: &Case, lo: &mut Local, st: &mut Stats) -> Result<(), Failure> {
-    let ctx = &lo.ctx;
     let user: HashMap<String, String> = HashMap::new();
-    let case = || case_json(c);
+    check_with(&lo.ctx, &user, c, st, &|| case_json(c))
+}
+
+fn check_with(ctx: &Ctx, user: &HashMap<String, String>, c: &Case, st: &mut Stats, case: &dyn Fn() -> Value) -> Result<(), Failure> {
+    let user = user.clone();
     let pf = |p: crate::driver::PanicInfo| Failure::new(panic_kind(&p), p.to_string(), case());
     ctx.finish().map_err(pf)?;
     let full = format!("{}{}{}{}", c.lead, c.base, c.suffix, c.trail);
@@ -109,6 +112,74 @@ fn check(c: &Case, lo: &mut Local, st: &mut Stats) -> Result<(), Failure> {
     Ok(())
 }
 
+/// The user's auto-correct list is one source of direct candidates, and it can change under a live context
+/// (file edited, update-engine while idle).  A base that only the user's list knows is typed with suffixes before
+/// and after its entry is changed / removed / added: soundness and completeness are judged against the list that
+/// is in force at that moment.
+fn user_list_edited(run: &Run) {
+    let sk = &crate::gen::pools().suffix_keys;
+    let keys = ["dhk", "qxk", "abcx", "kolkt"];
+    let vals = ["dhaka", "DhakeshworI", "kolkata", "bangla", "boi"];
+    let mut items: Vec<(usize, usize, usize, usize, usize)> = vec![];
+    for k in 0..keys.len() {
+        for v1 in 0..vals.len() {
+            for edit in 0..3usize {
+                for sfx in 0..run.tier.pick(6usize, 40usize) {
+                    items.push((k, v1, (v1 + 1 + sfx) % vals.len(), edit, (k * 131 + v1 * 17 + sfx * 53 + edit) % sk.len()));
+                }
+            }
+        }
+    }
+    run.exhaustive(
+        "user-auto-correct-list-edited-under-a-live-context",
+        &items,
+        |_| (),
+        |&(k, v1, v2, edit, si), st, _| user_list_case(keys[k], vals[v1], vals[v2], edit, &sk[si], st),
+    );
+}
+
+fn user_list_case(key: &str, val1: &str, val2: &str, edit: usize, suffix: &str, st: &mut Stats) -> Result<(), Failure> {
+    use std::time::{Duration, UNIX_EPOCH};
+    let case = || json!({"user_list_edited": {"key": key, "value_before": val1, "value_after": val2, "edit": edit, "suffix": suffix}});
+    let pf = |p: crate::driver::PanicInfo| Failure::new(panic_kind(&p), p.to_string(), case());
+    let sb = Sandbox::new();
+    let write = |m: &HashMap<String, String>, secs: u64| {
+        std::fs::write(sb.autocorrect_file(), serde_json::to_string(m).unwrap()).expect("write");
+        std::fs::File::options().write(true).open(sb.autocorrect_file()).expect("open").set_modified(UNIX_EPOCH + Duration::from_secs(secs)).expect("mtime");
+    };
+    // edit 0: value changed; 1: entry removed (another entry stays); 2: entry added
+    let mut before: HashMap<String, String> = HashMap::new();
+    before.insert("zzq".to_string(), "boi".to_string());
+    if edit != 2 {
+        before.insert(key.to_string(), val1.to_string());
+    }
+    let mut after = before.clone();
+    match edit {
+        0 => {
+            after.insert(key.to_string(), val2.to_string());
+        }
+        1 => {
+            after.remove(key);
+        }
+        _ => {
+            after.insert(key.to_string(), val2.to_string());
+        }
+    }
+    write(&before, 3_000_000);
+    let mut ctx = Ctx::new(Opts::parse("sq"), &sb).map_err(pf)?;
+    let c = Case { lead: String::new(), base: key.to_string(), suffix: suffix.to_string(), trail: String::new() };
+    check_with(&ctx, &before, &c, st, &case)?;
+    write(&after, 3_000_100);
+    ctx.update(Opts::parse("sq"), &sb).map_err(pf)?;
+    check_with(&ctx, &after, &c, st, &case).map_err(|mut f| {
+        f.kind = format!("after-user-list-edit:{}", f.kind);
+        f.message = format!("user auto-correct list changed from {before:?} to {after:?}, update-engine: {}", f.message);
+        f
+    })?;
+    st.label("user-list-edited");
+    Ok(())
+}
+
 fn checked(c: &Case, lo: &mut Local, st: &mut Stats) -> Result<(), Failure> {
     with_fresh_retry(lo, mk_local, |l, s| check(c, l, s), st)
 }
@@ -143,6 +214,8 @@ pub fn strategy() -> impl Strategy<Value = Case> {
 }
 
 pub fn run(run: &Run) {
+    user_list_edited(run);
+    run.require_label("user-list-edited", 300);
     let bases = base_pool();
     let sk = pools().suffix_keys.clone();
     let per = run.tier.pick(24usize, 400usize);
@@ -200,6 +273,10 @@ pub fn run(run: &Run) {
 }
 
 pub fn replay(_run: &Run, case: &Value) -> Result<(), Failure> {
+    if let Some(u) = case.get("user_list_edited") {
+        let g = |k: &str| u[k].as_str().unwrap_or_default().to_string();
+        return user_list_case(&g("key"), &g("value_before"), &g("value_after"), u["edit"].as_u64().unwrap_or(0) as usize, &g("suffix"), &mut Stats::new());
+    }
     let s = |k: &str| case[k].as_str().unwrap_or_default().to_string();
     let c = Case { lead: s("lead"), base: s("base"), suffix: s("suffix"), trail: s("trail") };
     check(&c, &mut mk_local(), &mut Stats::new())
